@@ -5,7 +5,7 @@ import pandas as pd
 import polars as pl
 import pyarrow as pa
 
-from ..abstract import EMB, to_rat
+from ..abstract import dtdesc, EMB, to_rat
 from ..env import JUNK, NULL
 from ..util import call
 from .kernels import build_mask
@@ -105,6 +105,14 @@ def wrap_container(arr, cont, name=None, index=None):
         return pa.chunked_array(chunks, type=chunks[0].type)
     if cont == "arrowseries":
         return pd.Series(pd.array(arr, dtype=pd.ArrowDtype(pa.array(arr).type)), name=name)
+    if cont == "series_tz":          # the same instants, time zone aware (datetime embeddings only)
+        return pd.Series(arr, name=name, index=index).dt.tz_localize("UTC").dt.tz_convert("Europe/Dublin")
+    if cont == "nullable":           # pandas masked extension arrays (Int64 / Float64 / boolean)
+        return pd.Series(pd.array(arr, dtype={"i": "Int", "u": "UInt", "f": "Float"}[arr.dtype.kind] + str(arr.dtype.itemsize * 8) if arr.dtype.kind != "b" else "boolean"), name=name)
+    if cont == "frame1":
+        return pd.DataFrame({name or "v": arr}, index=index)
+    if cont == "plframe":
+        return pl.DataFrame({name or "v": np.asarray(arr)})
     raise ValueError(cont)
 
 
@@ -199,6 +207,7 @@ def run_reduce(case, gb=None):
         tr["rank"], tr["seed"] = key_meta(case, encs)
         values = wrap_container(emb.enc(case["vals"]), case.get("vcont", "np"), name=case.get("vname"), index=case.get("vindex"))
         mask = build_call_mask(case, n)
+        tr["idt"] = dtdesc(values)
     except Exception as ex:
         raise RuntimeError(f"harness could not build inputs: {type(ex).__name__}: {ex}")
     _verif.drain()
@@ -219,6 +228,7 @@ def run_reduce(case, gb=None):
     ev = _verif.drain()
     tr["events"] = sorted({e["e"] + ":" + str(e.get("kind", e.get("n_threads", ""))) for e in ev})
     tr["out"] = "ok"
+    tr["odt"] = dtdesc(out)
     arr, index = to_1d(out)
     res, hi = dec_values(op, arr, emb)
     tr["res"] = res
